@@ -182,10 +182,19 @@ class C14(Check):
                     "arp": ["arp.parse", "arp.hdr"], "ipv4": ["ipv4.parse", "ipv4.checksum", "ipv4.hdr"],
                     "udp": ["udp.parse", "udp.hdr", "udp.checksum"],
                     "tcp": ["tcp_opt.pack", "tcp_opt.unpack_new", "tcp.parse_options", "tcp.parse", "tcp.hdr", "tcp.checksum"],
-                    "icmp": ["echo.parse", "echo.hdr", "time_exceeded.parse", "time_exceeded.hdr", "unreach.parse", "unreach.hdr", "icmp.parse", "icmp.hdr"]}
+                    "icmp": ["echo.parse", "echo.hdr", "time_exceeded.parse", "time_exceeded.hdr", "unreach.parse", "unreach.hdr", "icmp.parse", "icmp.hdr"],
+                    "llc": ["llc.parse", "llc.hdr"], "mpls": ["mpls.parse", "mpls.hdr"], "eapol": ["eapol.parse", "eapol.hdr"], "eap": ["eap.parse", "eap.hdr"],
+                    "lldp": ["lldp.next_tlv", "lldp.parse", "lldp.hdr", "simple_tlv.parse", "simple_tlv.pack", "chassis_id._parse_data", "chassis_id._pack_data",
+                             "port_id._parse_data", "port_id._pack_data", "ttl._parse_data", "ttl._pack_data", "management_address._parse_data",
+                             "management_address._pack_data", "organizationally_specific._parse_data", "organizationally_specific._pack_data",
+                             "system_capabilities._parse_data", "system_capabilities._pack_data"],
+                    "ipv6": ["ipv6.hdr"], "icmpv6": ["icmpv6.hdr", "icmpv6._calc_checksum", "echo.parse", "echo.hdr"],
+                    "gre": ["gre.hdr"], "vxlan": ["vxlan.parse", "vxlan.hdr"], "igmp": ["igmp.hdr", "igmp.parse", "GroupRecord.unpack_new", "GroupRecord.pack"],
+                    "rip": ["rip.hdr", "rip.parse", "RIPEntry.hdr", "RIPEntry.parse"]}
     anchors = []
     coverage_cases = 2500
-    trusted_base = ["models Model/Checksum.lean, Model/PacketLayout.lean, Model/PacketHdr.lean hand-written from pox/lib/packet; tied by this correspondence run",
+    trusted_base = ["models Model/Checksum.lean, Model/PacketLayout.lean, Model/PacketHdr.lean (10 classes), Model/PacketExt.lean (12 more classes: llc, mpls, lldp, eapol, eap, ipv6, icmpv6, echo6, gre, vxlan, igmp, rip) hand-written from pox/lib/packet; tied by this correspondence run",
+                    "the driver answers every stack from the extended model and, for stacks of the ten original classes, refuses to answer unless the original model (the one the chain theorem is about) gives the identical result",
                     "RFC 1071 transcription `Pox.Checksum.rfc1071` (Lean) and `rfc1071` (harness/c14.py), cross-checked against each other on every cksum case",
                     "the harness's own wire-format walker (wire_check) for the positions of length/checksum fields"]
     assumptions = ["little-endian host (array('H') / struct 'H' in packet_utils.checksum are host order; model fixes LE)",
@@ -591,8 +600,7 @@ class C14(Check):
     # ------------------------------------------------------------------ model
     def modelled(self, case):
         if case["kind"] == "cksum": return True
-        kinds = CORE if case["kind"] == "mutparse" else MODELLED
-        return all((L["k"] in kinds and not L.get("ext")) or L["k"] in TERMINAL for L in case["layers"])
+        return all((L["k"] in MODELLED and not L.get("ext")) or L["k"] in TERMINAL for L in case["layers"])
 
     @staticmethod
     def _mlayer(L):
@@ -1030,6 +1038,10 @@ class C14(Check):
     def g_mut(self, rng):
         """a valid modelled stack whose packed bytes are truncated and/or overwritten at header offsets"""
         base = self.g_modelled(rng)
+        if rng.random() < 0.4:
+            for _ in range(20):
+                b2 = self.g_other(rng)
+                if self.modelled(b2): base = b2; break
         t = base["layers"][-1]
         if t["k"] == "bytes" and len(t["data"]) > 128: base["layers"][-1] = dict(t, data=t["data"][:2 * rng.randint(0, 64)])
         hdr = 14 + 4 * sum(1 for L in base["layers"] if L["k"] == "vlan")
@@ -1157,6 +1169,35 @@ class C14(Check):
             for i in range(12, min(n, 90)):
                 for v in (0, 1, 2, 3, 4, 5, 6, 8, 0x0f, 0x40, 0x46, 0x50, 0x60, 0xf0, 0xff):
                     cases.append({"kind": "mutparse", "top": "ethernet", "layers": L, "mut": [{"m": "set", "i": i, "v": v}]})
+        # --- the same for the phase-2 classes (the sweep range is the frame's own length; a frame the library cannot pack is skipped)
+        I6 = {"k": "ipv6", "tc": 0xb8, "flow": 0x12345, "hop_limit": 64, "nh": 58, "srcip": "fe80" + "00" * 13 + "01", "dstip": "ff02" + "00" * 13 + "02", "ext": []}
+        xbases = [[dict(E, type=30), {"k": "llc", "dsap": 0xaa, "ssap": 0xaa, "control": 3, "length": 8, "oui": "000000", "eth_type": 0x0800}, I(253), {"k": "bytes", "data": "6162"}],
+                  [dict(E, type=8), {"k": "llc", "dsap": 0x42, "ssap": 0x42, "control": 0x1234 * 2, "length": 4, "oui": None, "eth_type": None}, {"k": "bytes", "data": "616263"}],
+                  [dict(E, type=0x88cc), {"k": "lldp", "tlvs": [{"t": 1, "subtype": 4, "id": "000102030405"}, {"t": 2, "subtype": 2, "id": "31"}, {"t": 3, "ttl": 120},
+                                                                 {"t": 5, "payload": "7377"}, {"t": 7, "caps": 0x14, "en": 4},
+                                                                 {"t": 8, "ast": 1, "addr": "0a000001", "ins": 2, "ifn": 3, "oid": "2b06"},
+                                                                 {"t": 127, "oui": "0026e1", "subtype": 0, "payload": "6470"}, {"t": 0}]}, {"k": "none"}],
+                  [dict(E, type=0x86dd), I6, {"k": "icmpv6", "type": 128, "code": 0}, {"k": "echo6", "id": 7, "seq": 9}, {"k": "bytes", "data": "616263"}],
+                  [dict(E, type=0x86dd), dict(I6, nh=17), U, {"k": "bytes", "data": "616263"}],
+                  [E, I(47), {"k": "gre", "type": 0x0800, "key": 0xdeadbeef, "seq": 7, "csum": True, "ssr": False}, I(253), {"k": "bytes", "data": "6162"}],
+                  [E, I(17), dict(U, dstport=4789), {"k": "vxlan", "vni": 0xabcdef}, dict(E, type=0x9999), {"k": "bytes", "data": "6162"}],
+                  [E, I(2), {"k": "igmp", "vt": 0x22, "groups": [{"type": 1, "addr": 0xe0000116, "srcs": [0x0a000001], "aux": ""}], "extra": ""}, {"k": "none"}],
+                  [E, I(2), {"k": "igmp", "vt": 0x16, "mrt": 10, "addr": 0xe0000116, "extra": ""}, {"k": "none"}],
+                  [E, I(17), dict(U, srcport=520, dstport=520), {"k": "rip", "command": 2, "version": 2,
+                                                                 "entries": [{"af": 2, "tag": 0, "ip": 0x0a000000, "mask": 0xff000000, "nh": 0, "metric": 3}]}, {"k": "none"}],
+                  [dict(E, type=0x8847), {"k": "mpls", "label": 5, "tc": 1, "s": 0, "ttl": 9}, {"k": "mpls", "label": 0xfffff, "tc": 7, "s": 1, "ttl": 255}, {"k": "bytes", "data": "61626364"}],
+                  [dict(E, type=0x888e), {"k": "eapol", "version": 1, "type": 0, "bodylen": 4}, {"k": "eap", "code": 3, "id": 7, "length": 4}, {"k": "none"}]]
+        for base in xbases:
+            L = self.fixup(base)
+            try:
+                n = len(self.build(L).pack())
+            except Exception:
+                continue
+            for k in range(0, n + 1):
+                cases.append({"kind": "mutparse", "top": "ethernet", "layers": L, "mut": [{"m": "trunc", "n": k}]})
+            for i in range(12, min(n, 100)):
+                for v in (0, 1, 2, 3, 6, 8, 0x0f, 0x11, 0x22, 0x3a, 0x3b, 0x40, 0x60, 0x80, 0xaa, 0xff):
+                    cases.append({"kind": "mutparse", "top": "ethernet", "layers": L, "mut": [{"m": "set", "i": i, "v": v}]})
         # --- one of every un-modelled module (fixed seed)
         for _ in range(120):
             cases.append(self.g_other(rng))
@@ -1183,19 +1224,29 @@ C14.theorems = ["Pox.C14." + t for t in (
     "checksum_rfc1071", "checksum_skip_rfc1071", "checksum_start", "rfc1071_fold_spec", "checksum_verifies", "checksum_d12_witness",
     "struct_roundtrip", "ipv4_hdr", "ipv4_roundtrip", "udp_hdr", "udp_roundtrip", "tcp_hdr", "icmp_hdr", "icmp_roundtrip",
     "eth_roundtrip", "vlan_roundtrip", "vlan_cfi_d13_witness", "arp_roundtrip", "echo_roundtrip", "unreach_roundtrip",
-    "time_exceeded_roundtrip", "tcp_roundtrip", "roundtrip", "repack_id")]
+    "time_exceeded_roundtrip", "tcp_roundtrip", "roundtrip", "repack_id",
+    # phase 2 (Model/PacketExt.lean)
+    "llc_roundtrip", "mpls_roundtrip", "lldp_roundtrip", "lldp_tlv_length", "eapol_roundtrip", "eap_roundtrip", "ipv6_hdr", "udp6_hdr", "tcp6_hdr",
+    "icmp6_hdr", "icmp6_roundtrip", "echo6_roundtrip", "gre_hdr", "gre_roundtrip", "vxlan_roundtrip", "igmp_v2", "igmp_v3", "rip_roundtrip",
+    "xparse_eth_dispatch", "xparse_ipv4_dispatch", "xparse_udp_dispatch", "lldp_frame_roundtrip")]
 C14.level_text = (
-    "Proved in Lean for all inputs: packet_utils.checksum (incl. start / skip_word, odd lengths) = RFC 1071 for data <= 128 KiB; generic struct pack/unpack round trip; "
-    "IPv4 hdr: total length = 4*hl+payload, header checksum = RFC 1071 of the header and verifies, parse(hdr+payload) returns every field/options/payload; "
-    "UDP length and pseudo-header checksum (0 -> 0xffff) = spec; TCP data offset and pseudo-header checksum = spec (options as packed bytes); ICMP checksum = spec and verifies; "
-    "Ethernet/802.1Q (after D13)/ARP/ICMP echo/unreach/time-exceeded round trips; whole-chain theorem: for every well-formed stack of the 10 modelled classes "
-    "(incl. IPv4 options, TCP option lists, datagrams quoted inside ICMP errors) parse(pack p) = p with the computed fields filled in and pack(parse(pack p)) = pack p. "
-    "Every run re-checks the models against the real classes (pack bytes, attributes of the built and re-parsed chains, re-pack) and evaluates the round-trip / RFC 1071 oracle on all 21 modules.")
+    "Proved in Lean for all inputs: packet_utils.checksum (incl. start / skip_word, odd lengths) = RFC 1071 for data <= 128 KiB; generic struct pack/unpack round trip. "
+    "Per class, hdr/parse round trip + every length field + every Internet checksum = RFC 1071 (and verifies at a receiver): "
+    "Ethernet, 802.1Q, ARP, IPv4 (+options), UDP and TCP (+option lists) over IPv4 and over IPv6 pseudo headers, ICMP (echo/unreachable/time-exceeded/other), "
+    "LLC (1/2 control octets, SNAP), MPLS, LLDP (whole PDU: chassis/port/TTL + description/name/capabilities/management-address/org-specific/unknown TLVs + END, TLV lengths exact), "
+    "EAPOL, EAP success/failure, IPv6 fixed header (payload length), ICMPv6 (+echo; the parse-side checksum verification accepts what hdr emits), GRE (flags/key/seq/checksum), VXLAN, "
+    "IGMP v1/v2 messages and v3 reports with group records (checksum verified by parse), RIP (entries, signed metric). "
+    "Whole-chain theorem for the ten original classes (any nesting): parse(pack p) = p with the computed fields filled in and pack(parse(pack p)) = pack p. "
+    "Every run re-checks the models against the real classes (pack bytes, attributes of the built and re-parsed chains, re-pack) for all of the above, and evaluates the independent "
+    "round-trip / RFC 1071 oracle on all 21 modules.")
 C14.level_note = (
-    "The theorems are about hand-written models (Model/Checksum.lean, Model/PacketLayout.lean, Model/PacketHdr.lean) of the code AFTER the proposed repairs D12, D13, D40, D41; "
-    "they are tied to the code only by the differential run. MPTCP (TCP option 30) and IPv6 pseudo-headers are outside the model. "
-    "NOT behaviour-modelled, differential testing only (real build->bytes->parse->re-pack + independent length/checksum recomputation in the harness): "
-    "DHCP, DNS, IPv6(+extension headers), ICMPv6/NDP, MPLS, GRE, VXLAN, IGMP, RIP, EAPOL/EAP, LLDP, LLC/SNAP; no layout-only obligations are claimed for them. "
+    "The theorems are about hand-written models (Model/Checksum.lean, PacketLayout.lean, PacketHdr.lean, PacketExt.lean) of the code as committed (repairs D12, D13, D40-D44, D51, D22 are in); "
+    "they are tied to the code only by the differential run. PROVED per class (46 theorems): ethernet, vlan, arp, ipv4, udp, tcp, icmp(+echo, unreach, time_exceeded), llc, mpls, lldp, eapol, "
+    "eap(success/failure), ipv6(fixed header), icmpv6(+echo), gre, vxlan, igmp, rip. The chain-level theorem (roundtrip/repack_id) covers stacks of the ten original classes only; for stacks "
+    "containing the phase-2 classes the hand-over from Ethernet/IPv4/UDP is proved (xparse_*_dispatch) and the whole Ethernet+LLDP probe frame is proved (lldp_frame_roundtrip); other "
+    "compositions are checked by the differential run, not proved. "
+    "STILL DIFFERENTIAL ONLY (real build->bytes->parse->re-pack + independent recomputation in the harness, no theorem): DHCP and DNS (open findings D45/D46 leave only the option-less/"
+    "question-less header), IPv6 extension headers (D48), ICMPv6 error and NDP bodies (D47), EAP request/response bodies (D49), GRE routing, MPTCP TCP options. "
     "Trusted: Lean kernel, propext/Classical.choice/Quot.sound, the RFC 1071 transcriptions, the harness's wire walker, little-endian host.")
 
 CHECK = C14
